@@ -23,7 +23,8 @@ Definition raw_target (e : env) (url : str) : res (option str) :=
             if starts (lit "https://") (lower (firstn 8 pt)) && Nat.ltb 8 (length pt) then Ok (Some pt)
             else if starts (lit "http://") (lower (firstn 8 pt)) && Nat.ltb 7 (length pt) then Ok (Some pt)
             else if starts [47%N] pt then
-              match urljoin e url pt with
+              match (if has_protocol url then urljoin e url pt
+                       else match urljoin e (lit "http://" ++ url) pt with Ok t => Ok (skipn 7 t) | Exc x => Exc x end) with
               | Ok t => Ok (Some t)
               | Exc ValueError => Ok None
               | Exc x => Exc x
@@ -55,7 +56,8 @@ Proof.
   destruct (re_split _ _ _ u _) as [|a [|[tail|] l]]; try discriminate;
   destruct (re_search _ _ u) as [m|]; try discriminate; cbv zeta;
   repeat match goal with |- (if ?c then _ else _) = _ -> _ => destruct c; try discriminate end.
-  all: destruct (urljoin e u _) as [t|y] eqn:Eu; try discriminate.
+  all: destruct (has_protocol u).
+  all: match goal with |- context [urljoin ?e0 ?a ?b] => destruct (urljoin e0 a b) as [t|y] eqn:Eu end; try discriminate.
   all: pose proof (urljoin_exn _ _ _ _ Eu) as [-> | ->]; [discriminate|intros [= <-]; reflexivity].
 Qed.
 
@@ -135,7 +137,8 @@ Definition is_slice (v u : str) : Prop := exists a b, v = slice u a b.
 Definition embedded (e : env) (u t : str) : Prop :=
   (exists k, t = lit "https://" ++ skipn k u) \/
   (exists v, is_slice v u /\
-             (t = unquote v \/ urljoin e u (unquote v) = Ok t \/ t = lit "https://" ++ unquote v)).
+             (t = unquote v \/ urljoin e u (unquote v) = Ok t \/ t = lit "https://" ++ unquote v \/
+              (exists t0, urljoin e (lit "http://" ++ u) (unquote v) = Ok t0 /\ t = skipn 7 t0))).
 
 Lemma split_go_second (s : str) ms cur ng x tail l :
   split_go s ms cur ng (Some 1%nat) = x :: Some tail :: l -> ng = 0%nat -> exists k, tail = skipn k s.
@@ -157,6 +160,7 @@ Proof.
          (unfold g2, group; destruct (get_cap 2 (m_caps m)) as [[a0 b0]|]; [exists a0, b0; reflexivity|exists 0%nat, 0%nat; reflexivity]).
   all: repeat match goal with |- (if ?c then _ else _) = _ -> _ => destruct c; try discriminate end.
   all: try (intros [= <-]; right; exists g2; split; [exact Hg2|]; auto; fail).
-  all: destruct (urljoin e u (unquote g2)) as [tj|[]] eqn:Eu; try discriminate.
-  all: intros [= <-]; right; exists g2; split; [exact Hg2|]; auto.
+  all: destruct (has_protocol u).
+  all: match goal with |- context [urljoin ?e0 ?a (unquote ?g)] => destruct (urljoin e0 a (unquote g)) as [tj|[]] eqn:Eu end; try discriminate.
+  all: intros [= <-]; right; exists g2; split; [exact Hg2|]; eauto 6.
 Qed.
